@@ -319,8 +319,9 @@ class QG:
         cls = cls or self.cls or r.choice(CLASSES)
         n = r.randint(2, 4)
         ops = []
+        extra = r.choice([None, "(%s.a + Interval(days=1))", "Array(1, %s.b)"]) if self.vendor_terms else None
         for _ in range(n):
-            ops.append(self.simple_select(cls))
+            ops.append(self.simple_select(cls, extra=extra))
         expr = ops[0]
         for o in ops[1:]:
             m = r.choice(["union", "union_all", "intersect", "except_of", "minus", "+", "*", "-"])
@@ -338,12 +339,14 @@ class QG:
         self.emit("%s = %s" % (v, expr))
         return v
 
-    def simple_select(self, cls, ncols=None):
+    def simple_select(self, cls, ncols=None, extra=None):
         r = self.r
         qn = QNAMES[cls]
         tv = self.new_table()
         n = ncols or 2
         cols = ", ".join("%s.%s" % (tv, c) for c in ["a", "b", "c"][:n])
+        if extra:
+            cols += ", " + extra % tv
         s = "%s.from_(%s).select(%s)" % (qn, tv, cols)
         if r.random() < 0.4:
             s += ".where(%s.a %s %d)" % (tv, r.choice(gen.CMP), r.randint(0, 5))
